@@ -864,7 +864,7 @@ def exec_cli(plan, tree, log=None):
             log.count("fault_module_with_unusual_loader_" + plan["module"].split(":")[1])
         log.count("cli_invocations")
         log.count("cli_source_" + (inv and "invalid:" + inv or plan["source_kind"]))
-        log.event("cli", plan["ver"], [a.replace(workdir, "<wd>") for a in argv[:6]], status, len(stdout.replace(workdir, "<wd>")))
+        log.event("cli", plan["ver"], [a.replace(workdir, "<wd>") for a in argv[:6]], status, len(scrub(stdout.replace(workdir, "<wd>"))))
         for k in OUT_FLAGS:
             if plan["flags"].get(k):
                 log.count("cli_flag_" + k)
@@ -950,7 +950,7 @@ def exec_cli(plan, tree, log=None):
                 log.count("fault_rewrite_same_path")
                 if rw["same_mtime"] and len(nxt.encode("utf-8")) == len(cur.encode("utf-8")):
                     log.count("fault_rewrite_same_size_same_mtime")
-                log.event("rewrite", step, st2, len(out2))
+                log.event("rewrite", step, st2, len(scrub(out2.replace(workdir, "<wd>"))))
                 bad = "exit-status" if st2 != 0 else compare_outputs(out2, exp2["sections"])
                 if bad is not None:
                     log.violate("C16", "L6-stale-result-after-file-rewrite", bad if bad in ("exit-status", "source") else "program-sections",
